@@ -3,6 +3,8 @@ package props
 import (
 	"bytes"
 	"fmt"
+	"math/big"
+	"reflect"
 
 	"github.com/kstenerud/go-concise-encoding/ce"
 	"github.com/kstenerud/go-concise-encoding/ce/events"
@@ -180,3 +182,20 @@ func genInvalid(ctx *Ctx, idx int, err interface{}, evs []ev.Event) error {
 }
 
 func findingOpen(key string) bool { return harness.Open(key) }
+
+func ratOfAny(v interface{}) (*big.Rat, bool) {
+	rv := reflect.ValueOf(v)
+	if !rv.IsValid() {
+		return nil, false
+	}
+	switch rv.Kind() {
+	case reflect.Int, reflect.Int8, reflect.Int16, reflect.Int32, reflect.Int64:
+		return new(big.Rat).SetInt64(rv.Int()), true
+	case reflect.Uint, reflect.Uint8, reflect.Uint16, reflect.Uint32, reflect.Uint64:
+		return new(big.Rat).SetInt(new(big.Int).SetUint64(rv.Uint())), true
+	}
+	if bi, ok := v.(*big.Int); ok {
+		return new(big.Rat).SetInt(bi), true
+	}
+	return nil, false
+}
